@@ -5,11 +5,26 @@ from props import exlib
 
 PROP = "C20"; MODULES = ["NeatviVerif.Props.C20", "NeatviVerif.Props.C20b", "NeatviVerif.Props.C20c"]; MODE = "ex20"
 
+_vi = {}
+def vi_probe():
+    """the vi harness, built once per run in a directory of its own (removed at exit)"""
+    if "p" not in _vi:
+        import atexit, shutil
+        from props import vilib
+        wd = Workdir(); _vi["wd"] = wd
+        atexit.register(lambda: shutil.rmtree(wd.path, ignore_errors=True))
+        _vi["p"] = vilib.build(wd)
+    return _vi["p"]
+
 def streams(probe, tier, seed, wide):
     rng = Rng(seed)
     big = tier != "quick" or wide
     cases = gen_ex.buf_cases(rng, 12000 if big else 800, 4, 14) + gen_ex.buf_cases(rng, 600 if big else 60, 16, 40)
-    return [exlib.ex_stream(probe, "buffers", MODE, cases,
+    import gen_vi
+    from props import vilib
+    wcases = gen_vi.window_cases(rng, 4000 if big else 300)
+    return [vilib.vi_stream(vi_probe(), "vi-windows", "vi20", wcases,
+        "vi programs over two files with split windows (^Ws ^Wj ^Wk ^Wo ^Wc ^Wx), :e / :b between them, small edits: a reference that follows which buffer each window shows judges the buffer reached and that no text changes (the implementation alone; windows are outside the model)"),exlib.ex_stream(probe, "buffers", MODE, cases,
         "histories of open/switch (e, e #, b number/+/-/alias), edit, undo, write, delete-buffer over 2..5 files and over 16 files; the dump carries text, row, dirty flag and history position of every buffer; buffers that are not current before and after a command must be unchanged, the buffer left keeps its text/dirty/history and its cursor row, the buffer reached is the one named")]
 
 def main(tier, seed, replay):
